@@ -659,6 +659,14 @@ class C12(SimSpec):
         for g in scen["groups"]:
             g["batch"] = rng.randint(1, 3)
         scen["fault_kind"] = ["node_kill", "sbatch_fail", "sbatch_garbage", "cycle"][kind]
+        if i % 8 == 4:
+            # end-of-run window with node loss: a late user round is stalled at one of its critical points while the last
+            # batches record their final results and are then killed before their own submitter round
+            endgame(scen, rng)
+            scen["endgame_k"] = 1 + (i // 8) % 10
+            scen["endgame_kill"] = True
+            scen["faults"] = {"node_kill": 3, "node_kill_w": 0.0}
+            scen["fault_kind"] = "endgame_node_kill"
         return scen
 
     def tasks(self, tier, seed):
